@@ -32,6 +32,9 @@ def parse_split_specification(split_spec, size):
             rest_index = i
         else:
             raise ValueError("cannot parse specification '%s'" % split_spec)
+        if parts[-1] < 0:
+            raise ValueError("negative part size in specification '%s'"
+                             % split_spec)
     # check if it makes sense
     sum_parts = sum(parts)
     if sum_parts < size:
